@@ -328,6 +328,16 @@ pub fn run_c06(a: &Args, out: &PathBuf) -> Value {
                 let typed2 = for_type!(s, S, { conv_res(open().and_then(|r| r.read_as::<S>()), &c) });
                 let conv2 = for_type!(s, S, { conv_res(open().and_then(|r| r.read()).and_then(convert_shapes_to_vec_of::<S>), &c) });
                 traces[i].emit(json!({"ev": "typedseek", "S": s, "k": 1, "typed": typed2, "conv": conv2}));
+                // on a file whose header length is stale (0, or the 50 words of the placeholder) while the index lists
+                // the records: whatever the two reads make of it, they make the same
+                for (kk, stale) in [(-2i32, 50i32), (-3, 0)] {
+                    let mut shp2 = shp.clone();
+                    shp2[24..28].copy_from_slice(&stale.to_be_bytes());
+                    let open = || ShapeReader::with_shx(Cursor::new(shp2.clone()), Cursor::new(shx.clone()));
+                    let typed4 = for_type!(s, S, { conv_res(open().and_then(|r| r.read_as::<S>()), &c) });
+                    let conv4 = for_type!(s, S, { conv_res(open().and_then(|r| r.read()).and_then(convert_shapes_to_vec_of::<S>), &c) });
+                    traces[i].emit(json!({"ev": "typedseek", "S": s, "k": kk, "typed": typed4, "conv": conv4}));
+                }
                 // and through the by-path one-liners, with an index that lists the records in reverse order
                 let dir = out.join(format!("tmp-types-{}", std::process::id()));
                 let _ = std::fs::create_dir_all(&dir);
